@@ -12,7 +12,10 @@ pf=/verif/seeded/$id/patch.diff; ported=$(ls /verif/seeded/$id/patch.ported*.dif
 git -C $wt apply $pf || { echo "$id: patch does not apply"; git -C /repo worktree remove --force $wt; exit 2; }
 res=""
 for p in $props; do
+  cp /verif/evidence/$p.json /tmp/seedrun.$id.ev.$p 2>/dev/null
   VERIF_REPO=$wt timeout 1500 ./check $p > /tmp/seedrun.$id.log 2>&1; rc=$?
+  # the evidence file must describe /repo itself, not the seeded tree: put back what was there before this run
+  [ -f /tmp/seedrun.$id.ev.$p ] && mv /tmp/seedrun.$id.ev.$p /verif/evidence/$p.json
   line=$(grep -E "^VIOLATION" /tmp/seedrun.$id.log | head -1 | cut -c1-200)
   echo "$id $p exit=$rc $line"
   res="$res$p exit=$rc $line; "
@@ -25,7 +28,7 @@ for part in [x.strip() for x in sys.argv[2].split(';') if x.strip()]:
     r[part.split()[0]]=part
 m['results']=r; m['check_result']='; '.join(r[k] for k in sorted(r)); json.dump(m,open(p,'w'),indent=1)
 PY
-# restore generated Coq tables and evidence files: they must describe /repo itself, not the seeded tree
-git -C /verif checkout -- coq/gen evidence 2>/dev/null
+# restore the generated Coq tables: they must describe /repo itself, not the seeded tree
+git -C /verif checkout -- coq/gen 2>/dev/null
 git -C /repo worktree remove --force $wt; rm -f /tmp/seedrun.$id.log
 tag=$(python3 -c "import hashlib,sys;print(hashlib.sha1(sys.argv[1].encode()).hexdigest()[:8])" $wt); rm -rf /verif/build/bin-$tag /verif/build/gomod-$tag
